@@ -2,21 +2,23 @@
     changed" lemma used by every conservation proof. Core only. -/
 namespace Foundation
 
-def sumOver (l : List String) (f : String → Int) : Int := (l.map f).sum
+variable {α : Type} [DecidableEq α]
 
-theorem sumOver_nil (f : String → Int) : sumOver [] f = 0 := rfl
+def sumOver (l : List α) (f : α → Int) : Int := (l.map f).sum
 
-theorem sumOver_cons (x : String) (l : List String) (f : String → Int) :
+theorem sumOver_nil (f : α → Int) : sumOver [] f = 0 := rfl
+
+theorem sumOver_cons (x : α) (l : List α) (f : α → Int) :
     sumOver (x :: l) f = f x + sumOver l f := by
   simp [sumOver]
 
-theorem sumOver_congr (l : List String) (f g : String → Int) (h : ∀ k ∈ l, f k = g k) :
+theorem sumOver_congr (l : List α) (f g : α → Int) (h : ∀ k ∈ l, f k = g k) :
     sumOver l g = sumOver l f := by
   unfold sumOver
   rw [List.map_congr_left (fun k hk => (h k hk).symm)]
 
 /-- only entry `id` changed -/
-theorem sumOver_change (l : List String) (f g : String → Int) (id : String)
+theorem sumOver_change (l : List α) (f g : α → Int) (id : α)
     (h : ∀ k, k ≠ id → f k = g k) (hn : l.Nodup) (hm : id ∈ l) :
     sumOver l g = sumOver l f - f id + g id := by
   induction l with
@@ -39,7 +41,7 @@ theorem sumOver_change (l : List String) (f g : String → Int) (id : String)
       rw [ih hnx.2 hm', h x hx]; omega
 
 /-- a new id is appended to the log and nothing else changes -/
-theorem sumOver_new (l : List String) (f g : String → Int) (id : String)
+theorem sumOver_new (l : List α) (f g : α → Int) (id : α)
     (h : ∀ k, k ≠ id → f k = g k) (hm : id ∉ l) :
     sumOver (id :: l) g = sumOver l f + g id := by
   rw [sumOver_cons]
@@ -50,7 +52,7 @@ theorem sumOver_new (l : List String) (f g : String → Int) (id : String)
     exact h k this
   rw [this]; omega
 
-theorem sumOver_nonneg (l : List String) (f : String → Int) (h : ∀ k ∈ l, 0 ≤ f k) : 0 ≤ sumOver l f := by
+theorem sumOver_nonneg (l : List α) (f : α → Int) (h : ∀ k ∈ l, 0 ≤ f k) : 0 ≤ sumOver l f := by
   induction l with
   | nil => simp [sumOver]
   | cons x xs ih =>
